@@ -149,6 +149,8 @@ type session struct {
 	accepted map[blob.Ref]int    // accepted attempts per ref through a hub-notifying path
 	accTot   int
 
+	opt scriptOpt // family-specific shape of the offer script (zero value: the normal session)
+
 	rec     sessRec
 	n       int
 	nviol   int
@@ -358,7 +360,7 @@ func (s *session) acceptedSig(of *offer, wasStored bool) string {
 		return "accepted-oversize/" + s.site()
 	case wasStored:
 		return "accepted-corrupt-dup/" + s.site()
-	case of.Mut == "read-error":
+	case of.Mut == "read-error" || of.Mut == "term-error":
 		return "accepted-after-read-error/" + s.site()
 	}
 	return "accepted-corrupt/" + s.site()
@@ -376,6 +378,10 @@ func (s *session) judge(of *offer, out outcome, hookBefore int, a *attemptRec) {
 	r.Note("mutations", of.Mut)
 	r.Note("path_mutation", s.path+"/"+of.Mut)
 	r.Note("path_backend", s.site())
+	if s.opt.family != "" {
+		r.Note(s.opt.family, s.spec.Kind+"/"+s.path+"/"+of.Mut)
+		r.Count(s.opt.family+"_attempts", 1)
+	}
 	if of.Reader != "" {
 		r.Note("readers", of.Reader)
 	}
@@ -527,12 +533,12 @@ func (s *session) rejectClass(of *offer, out outcome) {
 				s.viol("wrong-reject-class/"+s.site(), "offer %s (%s %s) does not hash to its ref; blobserver.Receive must fail with ErrCorruptBlob, got: %v", of.RefStr, of.Mut, of.Arg, out.err)
 			}
 		}
-	case "direct":
+	case "direct", "direct-src":
 		switch {
 		case errors.Is(out.err, blobserver.ErrCorruptBlob):
-			r.Note("reject_classes", "direct:ErrCorruptBlob")
+			r.Note("reject_classes", s.path+":ErrCorruptBlob")
 		default:
-			r.Note("reject_classes", "direct:other-error")
+			r.Note("reject_classes", s.path+":other-error")
 		}
 	case "put":
 		if out.status == 0 {
